@@ -274,6 +274,13 @@ def gaussian_cases():
             for D in ([1.0] * nm, [1.5] * nm, [1.0, 2.2][:nm]):
                 V = S @ np.diag(list(D) * 2) @ S.T
                 cases.append(("general", (V + V.T) / 2))
+    # three modes: a thermal-diagonal, a pure and a general mixed state (all 64 zero patterns of the means are applied)
+    V3 = np.diag([1.0, 1.6, 2.2] * 2)
+    S3 = ph.embed(ph.beamsplitter(0.4, 0.3), [0, 2], 3) @ ph.embed(ph.squeeze(0.3, 0.5), [1], 3) @ ph.embed(ph.two_mode_squeeze(0.2, 0.1), [0, 1], 3)
+    cases.append(("thermal", V3))
+    cases.append(("pure-general", S3 @ S3.T))
+    V = S3 @ V3 @ S3.T
+    cases.append(("general", (V + V.T) / 2))
     return cases
 
 
@@ -282,7 +289,9 @@ def work_gaussian(task):
     res = Res()
     for tag, V in cases:
         nm = V.shape[0] // 2
-        for r in (None, np.array([0.3, -0.2, 0.1, 0.4][: 2 * nm])):
+        base = np.array([0.3, -0.2, 0.5, 0.1, 0.4, -0.6][:nm] + [0.25, 0.7, -0.35, 0.15, -0.45, 0.55][:nm])
+        # every pattern of exactly-zero entries in the vector of means (plus no vector at all)
+        for r in [None] + [base * np.array(mask) for mask in itertools.product([1.0, 0.0], repeat=2 * nm)]:
             for hbar in (2.0,):
                 res.n += 1
                 regs = [RegRef(i) for i in range(nm)]
@@ -302,7 +311,8 @@ def work_gaussian(task):
                 mu = got.d
                 d = max(float(np.max(np.abs(Vout - V))), float(np.max(np.abs(mu - (np.zeros(2 * nm) if r is None else r)))), float(np.max(np.abs(got.X))))
                 if d > 1e-7:
-                    res.violation(f"C02|Gaussian|state|{tag}|{'displaced' if r is not None else 'centred'}", f"Gaussian({tag}, {nm} modes{', displaced' if r is not None else ''}) decomposed into {[str(c)[:40] for c in out]} prepares a state that differs from the requested one by {d:.3g}", case)
+                    zp = "" if r is None or np.all(r != 0) else "|zero-entries"
+                    res.violation(f"C02|Gaussian|state|{tag}|{'displaced' if r is not None else 'centred'}{zp}", f"Gaussian({tag}, {nm} modes{', displaced' if r is not None else ''}) decomposed into {[str(c)[:40] for c in out]} prepares a state that differs from the requested one by {d:.3g}", case)
     return res
 
 
